@@ -26,7 +26,7 @@ CONTRACTS = {
     "variable.flatten": {"props": ["C01", "C03", "C04", "C05", "C10", "C14", "C15"], "why": "a leaf flattens to itself"},
     "variable.support_vector_variable": {"props": ["C01", "C20"], "why": "support column: id 0, bounds (1,1)"},
     "variable.to_json": {"props": ["C16"], "why": "bounds omitted iff (0,1)"},
-    "variable.from_json": {"props": ["C04", "C16"], "why": "reader default (0,1) agrees with writer omission"},
+    "variable.from_json": {"types": {"data": ["dict"], "data.get('bounds', {'lower': 0, 'upper': 1})": ["dict"]}, "props": ["C04", "C16"], "why": "reader default (0,1) agrees with writer omission"},
 }
 
 
